@@ -63,6 +63,9 @@ P = {
  "C19": ("Seeded random notes, containers, bars, tracks and compositions over the full value vocabulary (0-4 dots, complete tuplet groups on every base, longa/breve), all keys, 19 meters, chords, rests and Unicode/markup metadata are exported; LilyPond text is decoded by an own reader of the emitted subset and compared entry by entry (pitches, octave, chord order, base value, dots, enclosing \\times ratio, key/time state after every bar, header fields); MusicXML is parsed with xml.etree and compared per part / measure / note element (ids, numbering, time, fifths, mode, step/alter/octave, chord marks, dots, duration/divisions, names). Every vocabulary value also systematically through from_Track of both exporters; from_Note exhaustively.",
          "Own LilyPond-subset reader (vlib/ref/lyread.py) and xml.etree as independent decoders; expected content computed from the score description.",
          "translation validation by independent decoders over Hypothesis-generated programs"),
+ "C20": ("All 76 registered tunings x 128 notes x maxfret values for find_frets and all (string, fret) cells incl. out-of-range ones for get_Note are enumerated against own open-string pitches; lookups over every instrument prefix x casing x counts; find_fingering on generated note sets against a brute-force specification (set equality + fret-sum order); find_chord_fingering results against a validity predicate; generated notes, containers, bars, tracks and compositions on the 48 non-course tunings at page widths 40-160 are rendered and decoded by an own tab reader (equal line lengths, one line per string, pitches per entry in order); unplayable entries must raise the fingering/range error.",
+         "Own open-string pitch arithmetic, brute-force fingering enumeration and tab reader (vlib/ref/tabread.py); decode clause applied when every entry has room for its digits.",
+         "bounded-exhaustive enumeration + Hypothesis PBT vs brute-force specification; translation validation of tablature by an independent reader"),
 }
 DEFAULT_NOTE = "Oracle = independent reference model under /verif/vlib/ref; bounds per DESIGN.md section 4."
 
